@@ -40,7 +40,7 @@ func (r *Run) opDeviceAuthz(st Step) {
 		form.Set("audience", a)
 	}
 	basic := r.applyAuth(cs, st.A, form)
-	if st.A != "unknown_client" && st.A != "none" && st.p("no_client_id") == "" {
+	if st.A != "unknown_client" && st.A != "none" && st.A != "as_other_query" && st.p("no_client_id") == "" {
 		form.Set("client_id", cs.ID)
 	}
 	res := r.call("device", func() *Resp { return r.A.DeviceAuth(form, basic) })
@@ -413,7 +413,7 @@ func (r *Run) opPARPush(st Step) {
 		form.Set("request_uri", r.W.K.DocPARPrefix()+"embedded")
 	}
 	basic := r.applyAuth(cs, st.A, form)
-	if form.Get("client_id") == "" && st.p("no_client_id") == "" && st.A != "unknown_client" && st.A != "none" {
+	if form.Get("client_id") == "" && st.p("no_client_id") == "" && st.A != "unknown_client" && st.A != "none" && st.A != "as_other_query" {
 		form.Set("client_id", cs.ID)
 	}
 	res := r.call("par", func() *Resp { return r.A.PAR(form, basic) })
